@@ -1,0 +1,16 @@
+//go:build verif
+// +build verif
+
+package burndown
+
+import "gopkg.in/src-d/hercules.v10/internal/rbtree"
+
+// VerifFlatten exposes File.flatten (the per-line values).
+func (file *File) VerifFlatten() []int {
+	return file.flatten()
+}
+
+// VerifTree exposes the underlying tree.
+func (file *File) VerifTree() *rbtree.RBTree {
+	return file.tree
+}
